@@ -559,6 +559,50 @@ def _subst_pure_multiuse(fnode):
     return fnode
 
 
+PROPERTY_NAMES = set()  # filled by refswap: attribute names that are properties somewhere (a store may run a setter)
+
+
+def _store_load_forward(fnode):
+    """self.A = n ; ... self.A ...   ->   ... n ...   in the statements that follow in the same block, up to the first
+    statement that could re-bind self.A or n (a store to an attribute A, to n, or a call that is handed `self`)"""
+    for block in _blocks(fnode):
+        for i, s in enumerate(block):
+            if not (isinstance(s, ast.Assign) and len(s.targets) == 1 and isinstance(s.targets[0], ast.Attribute)
+                    and isinstance(s.targets[0].value, ast.Name) and s.targets[0].value.id == "self" and isinstance(s.value, ast.Name)):
+                continue
+            attr, n = s.targets[0].attr, s.value.id
+            if attr in PROPERTY_NAMES or attr.startswith("__"):
+                continue
+            # classes with __setattr__/__getattr__ hooks (Config) intercept attribute traffic
+            if "*" in PROPERTY_NAMES and _owner_has_hooks(fnode):
+                continue
+            for st in block[i + 1:]:
+                loads = [x for x in ast.walk(st) if isinstance(x, ast.Attribute) and isinstance(x.ctx, ast.Load) and x.attr == attr
+                         and isinstance(x.value, ast.Name) and x.value.id == "self"]
+                stop = False
+                for x in ast.walk(st):
+                    if isinstance(x, ast.Attribute) and isinstance(x.ctx, (ast.Store, ast.Del)) and x.attr == attr:
+                        stop = True
+                    if isinstance(x, ast.Name) and isinstance(x.ctx, (ast.Store, ast.Del)) and x.id == n:
+                        stop = True
+                    if isinstance(x, (ast.For, ast.While, ast.Try, ast.With, ast.FunctionDef, ast.Lambda)):
+                        stop = True
+                    if isinstance(x, ast.Call):
+                        for y in ast.walk(x):
+                            if isinstance(y, ast.Name) and y.id == "self" and not any(y is ld.value for ld in loads):
+                                stop = True
+                if stop:
+                    break
+                for ld in loads:
+                    _replace(st, ld, ast.Name(id=n, ctx=ast.Load()))
+    return fnode
+
+
+def _owner_has_hooks(fnode):
+    """refswap marks the methods of classes with __setattr__/__getattr__ hooks"""
+    return getattr(fnode, "_hooked", False)
+
+
 def _attr_chain(e):
     names = []
     while isinstance(e, ast.Attribute):
@@ -595,16 +639,21 @@ def _subst_attr_chain(fnode):
                 if last is None or len(inside) != len(uses):
                     continue
                 ok = True
-                for st in block[i + 1:last + 1]:
-                    for n in ast.walk(st):
-                        if isinstance(n, ast.Call) and not (isinstance(n.func, ast.Name) and n.func.id in PURE_BUILTINS):
+                order = [x for st in block[i + 1:last + 1] for x in _in_order(st)]
+                upos = [k for k, x in enumerate(order) if any(x is u for u in uses)]
+                lastpos = max(upos)
+                for k, x in enumerate(order[:lastpos]):
+                    if isinstance(x, ast.Call) and not (isinstance(x.func, ast.Name) and x.func.id in PURE_BUILTINS):
+                        # a call that completes before some later use of the temporary
+                        inside = {id(y) for y in ast.walk(x)}
+                        if any(id(order[p]) not in inside for p in upos if p > k):
                             ok = False
-                        if isinstance(n, ast.Attribute) and isinstance(n.ctx, (ast.Store, ast.Del)) and n.attr in ch[1]:
-                            ok = False
-                        if isinstance(n, ast.Name) and isinstance(n.ctx, (ast.Store, ast.Del)) and n.id == ch[0]:
-                            ok = False
-                        if isinstance(n, (ast.For, ast.While, ast.Lambda, ast.ListComp, ast.GeneratorExp, ast.SetComp, ast.DictComp)):
-                            ok = False
+                    if isinstance(x, ast.Attribute) and isinstance(x.ctx, (ast.Store, ast.Del)) and x.attr in ch[1]:
+                        ok = False
+                    if isinstance(x, ast.Name) and isinstance(x.ctx, (ast.Store, ast.Del)) and x.id == ch[0]:
+                        ok = False
+                    if isinstance(x, (ast.For, ast.While, ast.Lambda, ast.ListComp, ast.GeneratorExp, ast.SetComp, ast.DictComp, ast.Try, ast.With)):
+                        ok = False
                 if not ok:
                     continue
                 for u in uses:
@@ -787,6 +836,39 @@ def _node_names(c, n, node):
     return out
 
 
+def _empty_arms(stmts):
+    """`else: pass` is dropped; `if c: pass else: B` becomes `if not c: B`; an if with no statements at all and a
+    side-effect free test disappears"""
+    out = []
+    for s in stmts:
+        _recurse(s, _empty_arms)
+        if isinstance(s, ast.If):
+            if s.orelse and all(isinstance(x, ast.Pass) for x in s.orelse):
+                s.orelse = []
+            if all(isinstance(x, ast.Pass) for x in s.body) and s.orelse:
+                s.test, s.body, s.orelse = _negate_full(s.test), s.orelse, []
+            if all(isinstance(x, ast.Pass) for x in s.body) and not s.orelse and _readonly_expr(s.test):
+                continue
+        out.append(s)
+    return out or ([ast.Pass()] if stmts else [])
+
+
+def _or_default(stmts):
+    """x = a or b  (a a plain name)  ->  if a: x = a else: x = b"""
+    out = []
+    for s in stmts:
+        _recurse(s, _or_default)
+        if isinstance(s, ast.Assign) and len(s.targets) == 1 and isinstance(s.targets[0], ast.Name) and isinstance(s.value, ast.BoolOp) \
+                and isinstance(s.value.op, ast.Or) and len(s.value.values) == 2 and isinstance(s.value.values[0], ast.Name):
+            a, b = s.value.values
+            out.append(ast.copy_location(ast.If(test=copy.deepcopy(a),
+                                                body=[ast.Assign(targets=[copy.deepcopy(s.targets[0])], value=copy.deepcopy(a))],
+                                                orelse=[ast.Assign(targets=[copy.deepcopy(s.targets[0])], value=b)]), s))
+            continue
+        out.append(s)
+    return out
+
+
 def _unreachable(stmts):
     out = []
     for s in stmts:
@@ -850,7 +932,7 @@ def _tail_dup(stmts):
     k = 0
     while k + 1 < len(stmts):
         prev, nxt = stmts[k], stmts[k + 1]
-        if isinstance(prev, ast.If) and prev.orelse and isinstance(nxt, (ast.Assign, ast.Expr)) and not isinstance(nxt, ast.Return):
+        if isinstance(prev, ast.If) and isinstance(nxt, (ast.Assign, ast.Expr)) and not isinstance(nxt, ast.Return):
             t = _common_tail_target(prev)
             if t is not None and len([u for h in _header(nxt) for u in _uses(h, t)]) == 1 \
                     and not any(_uses(x, t) for x in stmts[k + 2:]) and not _stores(nxt, t):
@@ -887,7 +969,7 @@ def _common_tail_target(ifnode):
             return arm(last.body) and arm(last.orelse)
         return False
 
-    if arm(ifnode.body) and arm(ifnode.orelse) and len(names) == 1:
+    if arm(ifnode.body) and (arm(ifnode.orelse) if ifnode.orelse else True) and len(names) == 1:
         return next(iter(names))
     return None
 
@@ -1108,6 +1190,11 @@ def _comp_vars(fnode):
         visit_ListComp = visit_SetComp = visit_DictComp = visit_GeneratorExp = _do
 
     T().visit(fnode)
+    for n in ast.walk(fnode):
+        if isinstance(n, ast.comprehension) and isinstance(n.iter, ast.Call) and isinstance(n.iter.func, ast.Name) and n.iter.func.id in ("list", "tuple") \
+                and len(n.iter.args) == 1 and not n.iter.keywords and isinstance(n.iter.args[0], ast.Call):
+            # iterating a materialised copy of a freshly created iterable == iterating the iterable
+            n.iter = n.iter.args[0]
     return fnode
 
 
@@ -1136,7 +1223,23 @@ def _alpha(fnode):
 
 
 def _in_order(node):
+    """pre-order walk that follows evaluation order where the field order does not (comprehensions: generators first)"""
     yield node
+    if isinstance(node, (ast.ListComp, ast.SetComp, ast.GeneratorExp, ast.DictComp)):
+        for g in node.generators:
+            yield from _in_order(g)
+        for c in ([node.key, node.value] if isinstance(node, ast.DictComp) else [node.elt]):
+            yield from _in_order(c)
+        return
+    if isinstance(node, ast.comprehension):
+        for c in [node.iter, node.target] + list(node.ifs):
+            yield from _in_order(c)
+        return
+    if isinstance(node, ast.Assign):
+        yield from _in_order(node.value)
+        for t in node.targets:
+            yield from _in_order(t)
+        return
     for c in ast.iter_child_nodes(node):
         yield from _in_order(c)
 
@@ -1161,6 +1264,7 @@ def _canon_once(fnode):
     f = _Expr().visit(f)
     f = _comp_vars(f)
     f.body = _unreachable(f.body)
+    f.body = _or_default(f.body)
     f.body = _tuple_split(f.body)
     f.body = _try_rethrow(f.body)
     f.body = _aug_append(f.body)
@@ -1176,6 +1280,8 @@ def _canon_once(fnode):
         f.body = _else_form(f.body)
         f.body = _push_return(f.body)
     f = _alias_coalesce(f)
+    f = _store_load_forward(f)
+    f.body = _empty_arms(f.body)
     f = _dead_stores(f)
     f = _forward_subst(f)
     f = _subst_pure_multiuse(f)
@@ -1186,6 +1292,7 @@ def _canon_once(fnode):
     for _ in range(2):
         f.body = _else_form(f.body)
         f.body = _push_return(f.body)
+    f.body = _empty_arms(f.body)
     f.body = _positive_if(f.body)
     f = _Expr().visit(f)
     f = _order_commuting(f)
